@@ -369,6 +369,10 @@ class CParser:
                 while not isinstance(decls_0_tail, c_ast.TypeDecl):
                     decls_0_tail = decls_0_tail.type
                 if decls_0_tail.declname is None:
+                    if not isinstance(spec["type"][-1], c_ast.IdentifierType):
+                        self._parse_error(
+                            "Invalid declaration", decls[0]["decl"].coord
+                        )
                     decls_0_tail.declname = spec["type"][-1].names[0]
                     del spec["type"][-1]
 
